@@ -21,7 +21,7 @@ import Mathlib.Algebra.Field.Rat
 import GT.Base.DMat
 import GT.Model.Words
 
-namespace GT
+namespace GT.RepW
 
 abbrev Err := String
 abbrev M? := Except Err
@@ -83,7 +83,7 @@ def setGenerator (invert : DMat n n R → Option (DMat n n R)) (ρ : Rep n R) (g
   else .ok { ρ with gens := gens1 }
 
 /-- `Representation.asym_gens()` -/
-def asymGens (ρ : Rep n R) : List Gen := GT.asymGens (ρ.gens.map Prod.fst)
+def asymGens (ρ : Rep n R) : List Gen := GT.RepW.asymGens (ρ.gens.map Prod.fst)
 
 /-- `Representation(representation, generator_names=None, …)`: the copy constructor
 (`_set_generator(gen, representation.generators[gen], compute_inverse=False)` for every key) -/
@@ -381,4 +381,4 @@ def invertZ (A : DMat n n ℤ) : Option (DMat n n ℤ) :=
   if d = 1 ∨ d = -1 then some (DMat.ofMatrix (d • A.toMatrix.adjugate)) else none
 
 end Rep
-end GT
+end GT.RepW
